@@ -31,6 +31,12 @@ type Case struct {
 	MaxSize   int    `json:"max_size"`
 	Variant   string `json:"variant"`
 	Tags      []string `json:"tags,omitempty"`
+	// script worlds: the replicas are what the real object trees made of the script; Dag / A / B are then only a
+	// record of what was observed (a replay re-executes the script).  AP / BP: responder / requester replica
+	// (BP = -1: a fresh replica holding only the root).
+	Script *Script `json:"script,omitempty"`
+	AP     int     `json:"ap,omitempty"`
+	BP     int     `json:"bp,omitempty"`
 }
 
 type Batch struct {
@@ -96,17 +102,47 @@ type outcome struct {
 	haveB   []int
 	finalB  []int
 	panicked string
+	nonterm bool // the batch-count guard was hit: the stream did not end with an empty batch
+	sw      *scriptWorld
 }
 
-func runCase(w *World, c Case) (o outcome) {
+func runCase(w *World, c *Case) (o outcome) {
 	defer func() {
 		if r := recover(); r != nil {
 			o.panicked = fmt.Sprint(r)
 		}
 	}()
-	dm := dagMap(c.Dag)
-	a := buildPeer(w, c.Dag, c.A)
-	b := buildPeer(w, c.Dag, c.B)
+	var dm map[int]Chg
+	var a, b *Peer
+	if c.Script != nil {
+		sw := runScript(w, c.Script)
+		o.sw = sw
+		dm = sw.dm
+		if c.AP < 0 || c.AP >= len(sw.peers) {
+			c.AP = 0
+		}
+		a = sw.peers[c.AP]
+		if c.BP >= 0 && c.BP < len(sw.peers) && c.BP != c.AP {
+			b = sw.peers[c.BP]
+		} else {
+			c.BP = -1
+			b = w.NewPeer(c.Script.Root)
+		}
+		c.Dag = sw.dag
+		c.A, c.B = snapshotState(a), snapshotState(b)
+		switch c.Variant {
+		case "empty_request":
+			c.ReqHeads, c.ReqPath = nil, nil
+		case "path_only":
+			c.ReqHeads, c.ReqPath = []int{}, c.B.Path
+		default:
+			c.ReqHeads, c.ReqPath = c.B.Heads, c.B.Path
+		}
+	} else {
+		dm = dagMap(c.Dag)
+		a = buildPeer(w, c.Dag, c.A)
+		b = buildPeer(w, c.Dag, c.B)
+	}
 	ids, all, _ := a.Stored()
 	o.sigma = ids
 	for _, sc := range all {
@@ -128,12 +164,16 @@ func runCase(w *World, c Case) (o outcome) {
 		return
 	}
 	o.ok = true
+	// batch-count guard: a correct stream sends every stored change at most once, so it has at most len(ids)
+	// non-empty batches; a stream that is still going after that is reported, not suffered
+	o.nonterm = true
 	for guard := 0; guard < len(ids)+5; guard++ {
 		resp, err := prod.NewResponse(c.MaxSize)
 		if err != nil {
 			panic(err)
 		}
 		if len(resp.Changes) == 0 {
+			o.nonterm = false
 			break
 		}
 		var bt Batch
@@ -198,7 +238,7 @@ type runner struct {
 
 func (r *runner) run(c Case) {
 	r.w.Tick()
-	o := runCase(r.w, c)
+	o := runCase(r.w, &c)
 	if o.panicked != "" {
 		idx := r.out.Add("(CResp [] [] [] [] [] [] 1 true [] [])", c, fmt.Sprint(c), false)
 		r.out.Violation(idx, "panic", "the implementation panicked: "+o.panicked, nil)
@@ -214,8 +254,27 @@ func (r *runner) run(c Case) {
 		}
 	}
 	nontrivial := len(o.batches) >= 1 && sent >= 2
-	r.out.Add(term, c, term, nontrivial)
+	idx := r.out.Add(term, c, term, nontrivial)
+	if o.nonterm {
+		r.out.Violation(idx, "nonterminating", fmt.Sprintf("the response stream did not end with an empty batch within %d batches "+
+			"(the responder stores %d changes)", len(o.batches), len(o.sigma)), o.batches)
+	}
 	r.out.Stat("variant_" + c.Variant)
+	if o.sw != nil {
+		r.out.Stat("script_cases")
+		if o.sw.localOnMulti > 0 {
+			r.out.Stat("script_local_change_on_multi_head_tree")
+		}
+		if o.sw.localOnSkew > 0 {
+			r.out.Stat("script_local_change_where_greatest_head_is_not_last_iterated")
+		}
+		if o.sw.contentErr > 0 {
+			r.out.Stat("script_local_add_error")
+		}
+		if c.BP >= 0 {
+			r.out.Stat("script_requester_is_replica")
+		}
+	}
 	switch n := len(o.batches); {
 	case n == 0:
 		r.out.Stat("batches_0")
@@ -255,7 +314,7 @@ func main() {
 	if o.Replay != "" {
 		for _, raw := range vlib.ReadReplay(o.Replay) {
 			var c Case
-			if json.Unmarshal(raw, &c) != nil || len(c.Dag) == 0 {
+			if json.Unmarshal(raw, &c) != nil || (len(c.Dag) == 0 && c.Script == nil) {
 				continue
 			}
 			r.run(c)
@@ -311,9 +370,38 @@ func main() {
 			}
 		}
 	}
+	// script worlds: replicas built through the tree's own operations (remote batches + LOCAL AddContent on
+	// multi-head trees + exchanges + reopen), see gen.go
+	nScript := 70 * o.Budget
+	if o.Tier == "thorough" {
+		nScript = 800 * o.Budget
+	}
+	for k := 0; k < nScript; k++ {
+		g := rng.Fork(uint64(1000000 + k))
+		sc, _ := genScript(w, g)
+		nPairs := 2 + g.Intn(2)
+		for q := 0; q < nPairs; q++ {
+			ap := g.Intn(sc.NP)
+			bp := g.Intn(sc.NP)
+			if bp == ap || g.Chance(1, 4) {
+				bp = -1
+			}
+			limits := []int{1, 60 + g.Intn(200), 300 + g.Intn(900), 10 * 1024 * 1024}
+			c := Case{Script: sc, AP: ap, BP: bp, MaxSize: limits[g.Intn(len(limits))], Variant: "heads_and_path"}
+			switch g.Intn(6) {
+			case 0:
+				c.Variant = "empty_request"
+			case 1:
+				c.Variant = "path_only"
+			}
+			r.run(c)
+		}
+	}
 	r.out.Finish("one case = one request answered by a real responder until the first empty batch, then applied to a copy of the "+
 		"requester; replica states are taken from honest DAGs authored by 2-4 real peers (diverged, one ahead, reduced to later "+
-		"snapshots, concurrent snapshots, requester with only the root); limits 1 byte .. 10 MiB; request variants heads+path / "+
+		"snapshots, concurrent snapshots, requester with only the root) and from script worlds (replicas built through the object "+
+		"tree's own operations: remote AddRawChanges batches of concurrent branches of different lengths, LOCAL AddContent / snapshot on "+
+		"multi-head trees, exchanges of stored prefixes, reopen); limits 1 byte .. 10 MiB; request variants heads+path / "+
 		"empty request / path only; a case is non-trivial if at least one batch and at least two changes are sent; distinct by full case term",
 		r.samples, nil)
 }
